@@ -163,12 +163,12 @@ def mutual_info_estimator_numba(
     all_events = len(X)
     f_values, f_value_counts = numba_unique(X)
 
+    if approximation_factor < 1.0:
+        Y, X = stratified_subsampling(Y, X, approximation_factor, f_values)
+
     # Diagonal entries
     if np.array_equal(X, Y):
         cardinality_correction = False
-
-    if approximation_factor < 1.0:
-        Y, X = stratified_subsampling(Y, X, approximation_factor, f_values)
 
     joint_entropy_core = compute_entropies(
         X, Y, all_events, f_values, f_value_counts, cardinality_correction,
